@@ -5,13 +5,17 @@ use std::process::Command;
 
 pub fn run(rep: &Reporter) -> (Value, bool) {
     let dir = format!("{}/loomcheck", verif_dir());
-    let build = Command::new("cargo").args(["build", "--release", "--offline"]).current_dir(&dir).env("CARGO_NET_OFFLINE", "true").output();
+    let build_root = std::env::var("VERIF_BUILD").unwrap_or_else(|_| format!("{}/.build", verif_dir()));
+    let mut cmd = Command::new("cargo");
+    cmd.args(["build", "--release", "--offline"]);
+    if let Ok(repo) = std::env::var("VERIF_REPO") { if repo != "/repo" { cmd.arg("--config").arg(format!("paths=[\"{}/ddo\"]", repo)); } }
+    let build = cmd.current_dir(&dir).env("CARGO_NET_OFFLINE", "true").env("CARGO_TARGET_DIR", format!("{}/loom", build_root)).output();
     match build {
         Ok(o) if o.status.success() => (),
         Ok(o) => { rep.engine_error(format!("loomcheck does not build against /repo: {}", String::from_utf8_lossy(&o.stderr).lines().rev().take(12).collect::<Vec<_>>().join(" | "))); return (json!({"status": "build failed"}), false); }
         Err(e) => { rep.engine_error(format!("cannot run cargo for loomcheck: {}", e)); return (json!({"status": "build failed"}), false); }
     }
-    let exe = format!("{}/.build/loom/release/loomcheck", verif_dir());
+    let exe = format!("{}/loom/release/loomcheck", build_root);
     // one process per core, programs striped over them
     let n = crate::par::nthreads();
     let children: Vec<_> = (0..n).map(|i| Command::new(&exe).arg(&rep.tier).arg(i.to_string()).arg(n.to_string()).stdout(std::process::Stdio::piped()).stderr(std::process::Stdio::piped()).spawn()).collect();
